@@ -289,6 +289,8 @@ def second_history(r, kind, proto):
     if kind.n > 1 and r.random() < 0.6:
         other = r.choice([j for j in range(kind.n) if j != k])
         ops.append(r.choice([('setitem-name', other, ('py', 1)), ('getitem-name', other), ('setnone', other)]))
+    elif r.random() < 0.5:
+        ops.append(('setitem-pos', k, ('py', z + 1)))       # the same alternative first, with another value
     ops.append(r.choice([('setitem-name', k, ('py', z)), ('setpos', k - kind.n, ('obj', z)), ('settype', k, ('py', z))]))
     reads()
     if r.random() < 0.5:
